@@ -308,7 +308,7 @@ func runC15(w *mon.W) {
 			c15Parse(w, "/a/"+string(r)+"b")
 		}
 	}
-	for i := 0; i < w.Share(w.Pick(40000, 600000)); i++ {
+	for i := 0; i < w.Share(w.Pick(100000, 600000)); i++ {
 		n := 1 + w.Rng.IntN(10)
 		rs := make([]rune, n)
 		for j := range rs {
